@@ -123,6 +123,7 @@ func main() {
 	}
 	max := 4
 	runto := []int{}
+	rawPatterns := []string{}
 	runtoMode := "N"
 	haveRunTo := false
 	sc := bufio.NewScanner(f)
@@ -289,6 +290,12 @@ func main() {
 		case "RUNTO":
 			haveRunTo = true
 			runtoMode = k.next()
+			if runtoMode == "X" { // RunToRegex with the patterns given literally (hex tokens)
+				for k.more() {
+					rawPatterns = append(rawPatterns, k.str())
+				}
+				break
+			}
 			for k.more() {
 				runto = append(runto, k.int())
 			}
@@ -303,6 +310,8 @@ func main() {
 			names = append(names, nodes[i].name)
 		}
 		switch runtoMode {
+		case "X":
+			getWf().RunToRegex(rawPatterns...)
 		case "R":
 			pats := []string{}
 			for _, n := range names {
